@@ -64,6 +64,74 @@ def h_geometry(cx, sp, ssu, ssv, spacing, tess):
         cx.eq('vertex_on_surface[%d]' % k, list(v.data), ref)
 
 
+def h_component_direct(cx, ssu, ssv, spacing, which):
+    """the tessellation components called directly on a grid of symbolic points (no re-evaluation by the surface)"""
+    T = geo.M('tessellate')
+    pts = cx.points('E', ssu * ssv, 3)
+    comp = T.TriangularTessellate() if which == 'triangular' else T.TrimTessellate()
+    comp.tessellate([list(p) for p in pts], size_u=ssu, size_v=ssv, vertex_spacing=spacing, **({'trims': []} if which == 'trim' else {}))
+    V, Fc = comp.vertices, comp.faces
+    nu, nv = (ssu - 1) // spacing + 1, (ssv - 1) // spacing + 1
+    cx.check('vertex_count', len(V) == nu * nv, '%d vertices' % len(V))
+    for k, v in enumerate(V):
+        i, j = divmod(k, nv)
+        cx.eq('vertex_is_sample[%d]' % k, list(v.data), pts[(j * spacing) + ssv * (i * spacing)])
+        cx.eq('uv[%d]' % k, list(v.uv), [F(i * spacing, ssu - 1), F(j * spacing, ssv - 1)])
+    cx.check('face_count', len(Fc) == 2 * (nu - 1) * (nv - 1))
+    for k, f in enumerate(Fc):
+        cx.check('face_ids[%d]' % k, all(0 <= i < len(V) for i in f.data))
+
+
+def h_container(cx, nsurf, set_tessellator):
+    """SurfaceContainer-level tessellation: consecutive ids, faces in range, every vertex on ITS surface"""
+    multi = geo.M('multi')
+    T = geo.M('tessellate')
+    objs = []
+    infos = []
+    sps = [spec('surface', (1, 1), ((), ()), rational=False), spec('surface', (1, 2), ((), ()), rational=False), spec('surface', (2, 1), ((), ()), rational=False)][:nsurf]
+    for i, sp in enumerate(sps):
+        sizes = [len(k) - d - 1 for k, d in zip(sp['kvs'], sp['degs'])]
+        P = cx.points('P%d_' % i, sizes[0] * sizes[1], 3)
+        o = geo.make_surface(cx, sp['degs'][0], sp['degs'][1], cx.consts(sp['kvs'][0]), cx.consts(sp['kvs'][1]), sizes[0], sizes[1], P, None, normalize_kv=True)
+        objs.append(o)
+        infos.append((sp, sizes, P))
+    mc = multi.SurfaceContainer()
+    for o in objs:
+        mc.add(o)
+    mc.sample_size_u, mc.sample_size_v = 4, 3
+    if set_tessellator:
+        mc.tessellator = T.TriangularTessellate()
+    mc.tessellate()
+    V, Fc = mc.vertices, mc.faces
+    counts = [len(o.vertices) for o in objs]
+    fcounts = [len(o.faces) for o in objs]
+    cx.check('vertex_count', len(V) == sum(counts) and all(c >= 4 for c in counts), '%d vertices, per surface %s' % (len(V), counts))
+    cx.check('ids_consecutive', [v.id for v in V] == list(range(len(V))), str([v.id for v in V])[:100])
+    cx.check('face_count', len(Fc) == sum(fcounts) and all(c >= 2 for c in fcounts), '%d faces, per surface %s' % (len(Fc), fcounts))
+    for k, f in enumerate(Fc):
+        cx.check('face_ids_in_range[%d]' % k, all(0 <= i < len(V) for i in f.data), str(f.data))
+    k = 0
+    for si, o in enumerate(objs):
+        sp, sizes, P = infos[si]
+        for loc in range(counts[si]):
+            if k >= len(V):
+                break
+            v = V[k]
+            uv = [cx.const(_uvq(x)) for x in v.uv]
+            ref = oracles.surface_point_def(sp['degs'][0], sp['degs'][1], cx.consts(sp['kvs'][0]), cx.consts(sp['kvs'][1]), sizes[0], sizes[1], P, None, uv[0], uv[1], cx)
+            cx.eq('vertex_on_its_surface[%d]' % k, list(v.data), ref)
+            k += 1
+    # faces of surface si reference vertices of surface si only
+    off = 0
+    fk = 0
+    for si in range(len(objs)):
+        for _ in range(fcounts[si]):
+            if fk < len(Fc):
+                cx.check('face_within_surface[%d]' % fk, all(off <= i < off + counts[si] for i in Fc[fk].data), 'face %s of surface %d (vertices %d..%d)' % (Fc[fk].data, si, off, off + counts[si] - 1))
+            fk += 1
+        off += counts[si]
+
+
 def _concrete_surface(cx, ssu, ssv, tess=None):
     B = geo.M('BSpline')
     s = B.Surface()
@@ -273,6 +341,12 @@ def instances(tier):
                                 sp=sp, ssu=ssu, ssv=ssv, spacing=spacing, tess=tess))
         for ssu, ssv in ((2, 3), (4, 3)):
             out.append(inst('%s geometry %dx%d quad' % (spec_name(sp), ssu, ssv), h_geometry, timeout=1200, sp=sp, ssu=ssu, ssv=ssv, spacing=1, tess='quad'))
+    for ssu, ssv, spacing in ((3, 3, 1), (3, 5, 2), (5, 3, 2), (4, 7, 3), (7, 4, 3)):
+        for which in ('triangular', 'trim'):
+            out.append(inst('component %s direct %dx%d spacing%d' % (which, ssu, ssv, spacing), h_component_direct, timeout=900, ssu=ssu, ssv=ssv, spacing=spacing, which=which))
+    for nsurf in (1, 2, 3):
+        for st in (False, True):
+            out.append(inst('container %d surfaces tessellator_set=%s' % (nsurf, st), h_container, timeout=900, nsurf=nsurf, set_tessellator=st))
     tcombos = [(2, 2, 1), (3, 2, 1), (3, 4, 1), (5, 3, 2), (4, 4, 3), (6, 5, 1), (5, 5, 2)]
     if not quick:
         tcombos += [(9, 7, 2), (8, 8, 1), (9, 9, 4), (7, 4, 3)]
